@@ -1,6 +1,7 @@
 /-
   C11 — "a command that answers an error has changed nothing", on the executable storage models that are tied line by
-  line to the real leader-side validation + apply path (protocols datacorekv / datacoreset / datacorelist / datacorezset):
+  line to the real leader-side validation + apply path (protocols datacorekv / datacoreset / datacorelist / datacorezset;
+  datacore / datacorettl for HINCRBY, the one hash write with a data-dependent error):
   for every store, key, argument vector and log time, if the reply is an error then the store after the command IS the
   store before it. (On the real code the same statement is judged by the `error-changed-state` oracle of protocol `data`,
   which also commits the shared write batch after the failed command.)
@@ -9,6 +10,9 @@ import ZanVerif.Data.KVExec
 import ZanVerif.Data.SetExec
 import ZanVerif.Data.ListExec
 import ZanVerif.Data.ZSetCmd
+import ZanVerif.Data.HashExec
+import ZanVerif.Data.HashTTLIncrErr
+import ZanVerif.Gen.HIncrShape
 
 namespace Z.Props.C11
 
@@ -163,5 +167,41 @@ theorem C11_zset_error_no_effect (m : List Z.Ref.KV) (ts : Int) (cmd : String) (
       | exact C11_zset_intReply_error _ C11_aux_scoreReply_ne_err _ _ e h'
       | (cases h')
   exact key _ rfl h
+
+
+/-! ### hash: HINCRBY (the only hash write whose error depends on stored data: old value not an integer / beyond int64;
+    ill-formed increment), both storage layouts -/
+
+/-- local-deletion layout (`Z.HashExec`, any codec functions): HINCRBY on the raw increment argument — an error answer
+    (increment or stored value: notint / numrange) leaves the store exactly as it was -/
+theorem C11_hincrby_error_no_effect (F : Z.HashExec.EncFns) (m : List Z.Ref.KV) (k f dtxt : Z.Ref.Bytes)
+    (e : Z.HashIncr.IErr) (h : (Z.HashExec.hincrbyCmd F m k f dtxt).2 = .err e) :
+    (Z.HashExec.hincrbyCmd F m k f dtxt).1 = m :=
+  Z.HashIncr.cmdWith_error m dtxt _ e (fun d hd => Z.HashIncr.incrWith_error m _ d _ e hd) h
+
+/-- value-header layout (`Z.HashTTLExec`): the same, for every log time — the errors are an ill-formed increment, a
+    stored value that is not an integer / out of range, and a size meta that does not decode -/
+theorem C11_hincrby_error_no_effect_ttl (m : List Z.Ref.KV) (ts : Int) (table k f dtxt : Z.Ref.Bytes) (e : Z.KVExec.KErr)
+    (h : (Z.HashTTLExec.hincrbyCmd m ts table k f dtxt).2 = .err e) :
+    (Z.HashTTLExec.hincrbyCmd m ts table k f dtxt).1 = m :=
+  Z.HashTTLExec.hincrbyCmd_error_no_effect m ts table k f dtxt e h
+
+/-- the statement order the two theorems rest on is the code's, re-extracted on every run (Gen/HIncrShape): in HIncrBy the
+    parse block (whose error returns) precedes `n += delta`, which precedes the only write (`hSetField`), and nothing
+    writes before it; localHIncrbyCommand parses the increment and returns its error before HIncrBy is called -/
+theorem C11_hincrby_parse_before_write : Gen.hincrParseBeforeWrite = true ∧ Gen.hincrDeltaParsedFirst = true := by decide
+
+/-- non-vacuity: stores of the executable models (real key codec) on which HINCRBY does answer errors -/
+example :
+    let F := Z.HashExec.realFns [116]
+    let m := Z.HashExec.hset F [] [104] [102] [118]                 -- HSET t:h f v
+    (Z.HashExec.hincrbyCmd F m [104] [102] [49]).2 = .err .notint ∧  -- HINCRBY t:h f 1: the value is not an integer
+    (Z.HashExec.hincrbyCmd F m [104] [103] [120]).2 = .err .notint ∧ -- HINCRBY t:h g x: the increment is not
+    (Z.HashExec.hincrbyCmd F m [104] [103] [49]).2 = .int 1 := by decide
+
+example :
+    let m := (Z.HashTTLExec.hset [] 7000000000 false [116] [104] [102] (Z.KVExec.fmtInt 9223372036854775808)).1
+    (Z.HashTTLExec.hincrbyCmd m 7000000001 [116] [104] [102] [49]).2 = .err .numrange ∧
+    (Z.HashTTLExec.hincrbyCmd m 7000000001 [116] [104] [102] [49]).1 = m := by decide
 
 end Z.Props.C11
